@@ -56,7 +56,7 @@ out[-1] = out[-1].replace("| Property | Id |", ("**Campaign.** %d changes were k
     "(later rounds were told what had been tried and asked for mechanisms far from it: callers in other packages, configuration and flag handling, "
     "start-up and shutdown order, error and retry paths, whole-pipeline effects). %d of them were MISSED by the check as it stood when they were written and %d more were "
     "reported only as a broken correspondence without a failing input; every one of these led to a strengthening (a new leg, generator dimension, monitor or theorem - "
-    "named in the last column) and is now reported with a concrete failing input by the check of its own property - with two exceptions stated in the table: C04-m9 (a flag-parsing rule that makes WARC writing asynchronous by default) is NOT caught, and C16-m10 is caught by the check of C06, the property that owns the redirect limit, not by C16's. Four of the strengthenings exposed genuine defects of the "
+    "named in the last column) and is now reported with a concrete failing input by the check of its own property - with one exception stated in the table: C16-m10 is caught by the check of C06, the property that owns the redirect limit, not by C16's. Four of the strengthenings exposed genuine defects of the "
     "unchanged code that were then repaired (`fix:` commits d7c4d36, 55466e0, 3ec1779, 210c439). Three thorough-tier false alarms of the checks themselves "
     "(C04, C10, C15/C16 under load) were found and corrected along the way (described in the sections of those properties).\n\n| Property | Id |") % (n_all, n_missed, n_weak), 1)
 for r in rows:
